@@ -3,6 +3,7 @@
 pub mod dec;
 pub mod enc;
 pub mod evo;
+pub mod golden;
 pub mod spec;
 pub mod tamper;
 pub mod timeval;
